@@ -318,6 +318,18 @@ def _creation_index(label):
 
 
 # ------------------------------------------------------------------------------- operation histories
+def add_pre_trace(rng, case, p=0.25):
+    """with probability p the history starts with a plain match() of ANOTHER trace on the same matcher object
+    (often one that stops early): results must not depend on what the object matched before."""
+    if rng.random() < p:
+        pre = gen_trace(rng, case["map"], k=rng.randint(2, 7), kind=rng.choice(["walk", "outlier", "outlier", "sparse"]))
+        if rng.random() < 0.6 and len(pre) >= 2:
+            j = rng.randrange(1, len(pre))
+            pre[j] = [pre[j][0] + 9.0, pre[j][1] - 7.0]
+        case["ops"] = [{"op": "pre", "trace": pre, "unique": False}] + case["ops"]
+    return case
+
+
 def gen_history(rng, n_obs, width, allow_cwd=False, allow_restart=True, max_ops=4, unique=None):
     """match(prefix) followed by a random sequence of extend / widen / restart / continue-with-distance(+expand).
     Widths are non-decreasing; `cwd` is only *issued* by the executor after an early stop (its documented use)."""
@@ -353,3 +365,29 @@ def gen_history(rng, n_obs, width, allow_cwd=False, allow_restart=True, max_ops=
             ops.append({"op": "cwd"})
             ops.append({"op": "extend", "k": k, "unique": uq()})
     return ops
+
+
+# ------------------------------------------------------------------------------------- larger maps
+def map_large(rng, n=None, oneway_p=0.2, labels="int"):
+    """random geometric graph (each node linked to its 2-3 nearest neighbours plus a spanning chain): 40-120 nodes.
+    Only used by the invariant monitors (C03, C04, C07-online, C09), which need no reference optimum."""
+    n = n or rng.randint(40, 120)
+    side = math.sqrt(n) * 1.2
+    pts = []
+    while len(pts) < n:
+        p = (round(rng.uniform(0, side), 2), round(rng.uniform(0, side), 2))
+        if p not in pts:
+            pts.append(p)
+    und = []
+    for i in range(n):
+        ds = sorted((math.dist(pts[i], pts[j]), j) for j in range(n) if j != i)
+        for _, j in ds[: rng.choice([2, 3])]:
+            if (i, j) not in und and (j, i) not in und:
+                und.append((i, j))
+    m = _finish(pts, und, rng, oneway_p, labels, "large")
+    return m
+
+
+def gen_long_trace(rng, m, k=None, noise=0.15, sparse=1):
+    tr = gen_trace(rng, m, k=(k or rng.randint(12, 30)) * sparse, noise=noise, kind="walk")
+    return tr[::sparse]
